@@ -131,29 +131,35 @@ fn main() {
                 .map(|d| d.filter_map(|e| e.ok()).map(|e| e.path()).collect())
                 .unwrap_or_else(|_| vec![]);
             regs.sort();
-            for p in regs {
-                if p.extension().map(|e| e != "json").unwrap_or(true) {
-                    continue;
+            // the recorded cases are independent of each other: replayed on up to 8 threads
+            let regs: Vec<_> = regs.into_iter().filter(|p| p.extension().map(|e| e == "json").unwrap_or(false)).collect();
+            let next = std::sync::atomic::AtomicUsize::new(0);
+            std::thread::scope(|sc| {
+                for _ in 0..regs.len().min(8) {
+                    sc.spawn(|| loop {
+                        let i = next.fetch_add(1, std::sync::atomic::Ordering::SeqCst);
+                        let Some(p) = regs.get(i) else { break };
+                        let Ok(txt) = std::fs::read_to_string(p) else { continue };
+                        let Ok(v) = serde_json::from_str::<Value>(&txt) else {
+                            out(&format!("INCONCLUSIVE regression file {} does not parse", p.display()));
+                            std::process::exit(2);
+                        };
+                        let ck = v["check"].as_str().unwrap_or("").to_string();
+                        rep.class("regression-replayed");
+                        let r = match catch(|| replay(&ctx, &rep, &ck, &v["case"])) {
+                            Ok(r) => r,
+                            Err(pn) => Err(Fail { check: ck.clone(), site: "panic-in-replay".into(), msg: pn, case: v["case"].clone() }),
+                        };
+                        if let Err(f) = r {
+                            if f.site == "replay-parse" {
+                                out(&format!("INCONCLUSIVE regression file {} does not hold a case this harness can replay: {}", p.display(), truncate(&f.msg, 200)));
+                                std::process::exit(2);
+                            }
+                            rep.add_violation(f);
+                        }
+                    });
                 }
-                let Ok(txt) = std::fs::read_to_string(&p) else { continue };
-                let Ok(v) = serde_json::from_str::<Value>(&txt) else {
-                    out(&format!("INCONCLUSIVE regression file {} does not parse", p.display()));
-                    std::process::exit(2);
-                };
-                let ck = v["check"].as_str().unwrap_or("").to_string();
-                rep.class("regression-replayed");
-                let r = match catch(|| replay(&ctx, &rep, &ck, &v["case"])) {
-                    Ok(r) => r,
-                    Err(pn) => Err(Fail { check: ck.clone(), site: "panic-in-replay".into(), msg: pn, case: v["case"].clone() }),
-                };
-                if let Err(f) = r {
-                    if f.site == "replay-parse" {
-                        out(&format!("INCONCLUSIVE regression file {} does not hold a case this harness can replay: {}", p.display(), truncate(&f.msg, 200)));
-                        std::process::exit(2);
-                    }
-                    rep.add_violation(f);
-                }
-            }
+            });
             // a panic outside the guarded library calls (e.g. a poisoned lock inside the library while the
             // harness prepares the next check) must not lose what was found so far
             let meta = match catch(|| run(&ctx, &rep)) {
